@@ -1,3 +1,4 @@
+import NodisVerif.Proofs.FloatDecLen
 import NodisVerif.Proofs.C20ZIncr
 /-
   C20, HIncrByFloat (within the model's integer-valued float fragment).
@@ -40,16 +41,12 @@ theorem toInt?_bound {x : F64} {n : Int} (h : F64.toInt? x = some n) : inInt64 n
             split <;> omega
           · cases h
 
-theorem formatFloat_length {x : F64} {t : Bytes} (h : Api.formatFloat x = some t) : t.length ≤ 21 := by
+/-- FormatFloat(x,'f',-1,64) is at most 1000 bytes long (Proofs/FloatDecLen.lean; the integer-only model had 21).
+    Used only for the codec's size side condition. -/
+theorem formatFloat_length {x : F64} {t : Bytes} (h : Api.formatFloat x = some t) : t.length ≤ 1000 := by
   unfold Api.formatFloat at h
-  cases hn : F64.toInt? x with
-  | none => rw [hn] at h; cases h
-  | some n =>
-    rw [hn] at h
-    simp only [Option.map_some, Option.some.injEq] at h
-    split at h
-    · subst h; decide
-    · subst h; exact formatInt_length n (toInt?_bound hn)
+  cases h
+  exact Proofs.FloatDecLen.formatShortest_length x
 
 def opHIncrByFloat (k f : Bytes) (delta : F64) : FeedOp :=
   { typ := 8, key := k, args := [Bytes.toHex f, toString delta] }
@@ -113,7 +110,7 @@ theorem hincrbyfloat_eq (s : MState) (now : Int) (key field : Bytes) (delta : F6
             cases Api.formatFloat sum <;> rfl
 
 theorem hibfCalc_len {h : AList Bytes} {field : Bytes} {delta : F64} {t : Bytes} {x : F64}
-    (hc : hibfCalc h field delta = .inl (t, x)) : t.length ≤ 21 := by
+    (hc : hibfCalc h field delta = .inl (t, x)) : t.length ≤ 1000 := by
   unfold hibfCalc at hc
   split at hc
   · split at hc
@@ -128,7 +125,7 @@ theorem hibfCalc_len {h : AList Bytes} {field : Bytes} {delta : F64} {t : Bytes}
         · cases hc
         · rename_i hf; simp only [Sum.inl.injEq, Prod.mk.injEq] at hc; rw [← hc.1]; exact formatFloat_length hf
 
-theorem hibfF_ok (key field : Bytes) (delta : F64) (hb : field.length + 40 < 2 ^ 63) : (hibfF key field delta).OK := by
+theorem hibfF_ok (key field : Bytes) (delta : F64) (hb : field.length + 1040 < 2 ^ 63) : (hibfF key field delta).OK := by
   refine ⟨(fun h => nomatch h), (fun w h => by cases h; exact good_emptyHash), fun w e hg _ => ?_⟩
   cases w with
   | hash h =>
@@ -164,7 +161,7 @@ def HIncrByFloatCreatesAndFails (L : Option (Val × Int)) (delta : F64) : Prop :
 
 theorem hincrbyfloat_main (hs : Same now p r) (hl : p.listeners = true) (hfd : p.feed = [])
     (c : Feed.CallInfo) (hc : c.method = "HIncrByFloat") (k f : Bytes) (delta : F64)
-    (hb : f.length + 40 < 2 ^ 63) (hreg : ¬ HIncrByFloatCreatesAndFails (lookup p now k) delta) :
+    (hb : f.length + 1040 < 2 ^ 63) (hreg : ¬ HIncrByFloatCreatesAndFails (lookup p now k) delta) :
     Replay now r c (Api.hincrbyfloat p now k f delta) ∧ (Api.hincrbyfloat p now k f delta).1.listeners = true ∧
     ∀ op ∈ (Api.hincrbyfloat p now k f delta).1.feed.reverse, op.key = k := by
   rw [hincrbyfloat_eq]
